@@ -24,6 +24,27 @@
 (* scripted parents' referral logs.  Model mutants (the 5 s floor or the    *)
 (* answer's own TTL overriding the cut; the child's self-referral           *)
 (* re-anchoring the lease) must violate FollowsParent.                      *)
+(*                                                                         *)
+(* The 12 h CEILING (lease-length dimension above it).  The statement: the  *)
+(* lifetime a parent grants is the smaller of the referral's NS and DS      *)
+(* TTLs, limited by every shallower delegation "and a 12 h ceiling -        *)
+(* measured from the moment the referral was observed"; what was learned    *)
+(* through the old delegation "has stopped being served by then".  So the   *)
+(* ghosts grantP / grantC carry  min(TTL, Ceil)  and the intended resolver  *)
+(* limits BOTH what it stores (authority.Cache.SetUntil) AND the cut it     *)
+(* reports to the request tree of the resolution that observes the          *)
+(* referral (processDelegation: childDeadline -> noteCut -> the answer's    *)
+(* cutUntil, and the cutDeadline every deeper delegation inherits).         *)
+(* Referral TTLs of 6 h / 1 d / 2 d against Ceil = 12 h need a clock that   *)
+(* moves by hours: with RealTime = FALSE the clock advances by Jump(d)      *)
+(* only (the harness moves every stored timestamp into the past), Tick and  *)
+(* Hot are off.  Model mutants: CeilOnCut = FALSE (the ceiling applied to   *)
+(* the stored delegation but not to the reported cut: a later resolution    *)
+(* seeds its cut from the clamped stored expiry, the one that learned the   *)
+(* referral does not) must violate FollowsParent; no ceiling at all (both    *)
+(* FALSE) must violate LeaseWithinGrant.  With CeilOnCut the SetUntil clamp *)
+(* is redundant: the deadline handed to it is already anchored at the      *)
+(* observation.                                                             *)
 (***************************************************************************)
 EXTENDS Naturals, Sequences, FiniteSets, TLC
 
@@ -32,7 +53,12 @@ CONSTANTS TTLs,          \* referral TTLs, e.g. 1..3
           MaxChanges,    \* parent-side changes per behaviour
           MaxQueries,
           SignedSet, ChildSet, ChildTTLs, DeepSet, ValDelays,
-          FloorWins, SelfRefReanchors   \* model mutants
+          FloorWins, SelfRefReanchors,  \* model mutants
+          Ceil,          \* authority maximumTTL: 12 h, in clock units
+          Jumps,         \* clock advances of the long-lease family (RealTime = FALSE)
+          RealTime,      \* TRUE: 1 s Tick / Hot (the harness sleeps); FALSE: Jump only (virtual clock)
+          CeilOnCut,     \* FALSE = mutant: the reported cut of the learning resolution ignores the ceiling
+          CeilOnStore    \* FALSE = mutant: SetUntil does not clamp
 
 VARIABLES cfg, now, pver, cver, nextP, leaseP, leaseC, ans, neg, reply, rat, nq, nch,
           grantP, grantC   \* ghosts: what the parents granted, per version
@@ -40,6 +66,8 @@ VARIABLES cfg, now, pver, cver, nextP, leaseP, leaseC, ans, neg, reply, rat, nq,
 vars == <<cfg, now, pver, cver, nextP, leaseP, leaseC, ans, neg, reply, rat, nq, nch, grantP, grantC>>
 
 None == [exp |-> 0, pv |-> 0, cv |-> 0]
+\* an answer also remembers when it would have ended had no ceiling applied (raw): reachability only
+NoAns == [exp |-> 0, pv |-> 0, cv |-> 0, raw |-> 0]
 NoReply == <<9, 9>>
 MaxP == 3
 Min(a, b) == IF a < b THEN a ELSE b
@@ -51,14 +79,23 @@ Cfgs == [pNS : TTLs, pDS : TTLs, cNS : TTLs, cDS : TTLs, signed : SignedSet, chi
 PTTL == IF cfg.signed THEN Min(cfg.pNS, cfg.pDS) ELSE cfg.pNS
 CTTL == IF cfg.signed THEN Min(cfg.cNS, cfg.cDS) ELSE cfg.cNS
 Floor == 5
+CapTTL == 86400      \* dnsutil.MaxCacheTTL: a record's own TTL is capped at 24 h
 NegTTL == 60
+\* what a parent grants, per the statement: the referral's TTL under the ceiling
+GrantOf(ttl) == Min(ttl, Ceil)
+\* the deadline a referral observed now contributes to the request tree / the deadline handed to SetUntil
+CutOf(ttl) == now + (IF CeilOnCut THEN Min(ttl, Ceil) ELSE ttl)
+\* authority.Cache.SetUntil: clamp at now + Ceil
+Stored(deadline) == IF CeilOnStore THEN Min(deadline, now + Ceil) ELSE deadline
 
-Init == /\ cfg \in {c \in Cfgs : (c.valDelay > 0 => c.signed)}
+\* (long-lease family: an unsigned hierarchy has no DS, its DS TTLs are not a dimension)
+Init == /\ cfg \in {c \in Cfgs : /\ (c.valDelay > 0 => c.signed)
+                                 /\ ((~RealTime /\ ~c.signed) => (c.pDS = c.pNS /\ c.cDS = c.cNS))}
         /\ now = 0
         /\ pver = 1
         /\ cver = [p \in 1..MaxP |-> IF p = 1 THEN 1 ELSE 0]
         /\ nextP = 2
-        /\ leaseP = None /\ leaseC = None /\ ans = None /\ neg = 0
+        /\ leaseP = None /\ leaseC = None /\ ans = NoAns /\ neg = 0
         /\ reply = NoReply /\ rat = 0 /\ nq = 0 /\ nch = 0
         /\ grantP = [p \in 1..MaxP |-> 0]
         /\ grantC = [p \in 1..MaxP |-> [c \in 1..MaxP |-> 0]]
@@ -72,29 +109,40 @@ VerStr(p, c) == <<p, c>>
 
 Resolve ==
   \* returns [lp, lc, an, ng, rep, gp, gc]
-  LET lp1 == IF Live(leaseP) THEN leaseP
+  \* cutP / cutC: the deadline each delegation contributes to THIS resolution's request tree.  A cached delegation
+  \* contributes its stored expiry (searchCache seed / resolveWithCachedNameservers); a referral observed now
+  \* contributes observedAt + TTL -- under the ceiling (CutOf) in the intended resolver.
+  LET haveP == Live(leaseP)
+      askedRoot == ~haveP /\ pver # 0
+      cutP == IF haveP THEN leaseP.exp ELSE CutOf(PTTL)
+      lp1 == IF haveP THEN leaseP
              ELSE IF pver = 0 THEN None
-             ELSE [exp |-> now + PTTL, pv |-> pver, cv |-> 0]
-      askedRoot == ~Live(leaseP) /\ pver # 0
-      gp1 == IF askedRoot THEN [grantP EXCEPT ![pver] = now + PTTL] ELSE grantP
+             ELSE [exp |-> Stored(cutP), pv |-> pver, cv |-> 0]
+      gp1 == IF askedRoot THEN [grantP EXCEPT ![pver] = now + GrantOf(PTTL)] ELSE grantP
   IN IF lp1.pv = 0
-     THEN [lp |-> None, lc |-> None, an |-> None, ng |-> now + NegTTL, rep |-> <<0, 0>>, gp |-> gp1, gc |-> grantC]
+     THEN [lp |-> None, lc |-> None, an |-> NoAns, ng |-> now + NegTTL, rep |-> <<0, 0>>, gp |-> gp1, gc |-> grantC]
      ELSE LET sameP == Live(leaseC) /\ leaseC.pv = lp1.pv
               cNow == cver[lp1.pv]
+              rawC == Min(CutOf(CTTL), cutP)          \* minCut(ancestor, observedAt + min(NS, DS))
+              cutC == IF sameP THEN leaseC.exp ELSE rawC
               lc1 == IF sameP THEN leaseC
                      ELSE IF cNow = 0 THEN None
-                     ELSE [exp |-> Min(now + CTTL, lp1.exp), pv |-> lp1.pv, cv |-> cNow]
+                     ELSE [exp |-> Stored(rawC), pv |-> lp1.pv, cv |-> cNow]
               askedP == ~sameP /\ cNow # 0
-              gc1 == IF askedP THEN [grantC EXCEPT ![lp1.pv][cNow] = Min(now + CTTL, gp1[lp1.pv])] ELSE grantC
+              gc1 == IF askedP THEN [grantC EXCEPT ![lp1.pv][cNow] = Min(now + GrantOf(CTTL), gp1[lp1.pv])] ELSE grantC
           IN IF lc1.pv = 0
              THEN \* the parent's NXDOMAIN is itself learned through p's delegation: bounded by that cut
-                  [lp |-> lp1, lc |-> None, an |-> None, ng |-> Min(now + NegTTL, lp1.exp), rep |-> <<0, 0>>, gp |-> gp1, gc |-> gc1]
-             ELSE LET own == now + Max(cfg.childTTL, Floor)
+                  [lp |-> lp1, lc |-> None, an |-> NoAns, ng |-> Min(now + NegTTL, cutP), rep |-> <<0, 0>>, gp |-> gp1, gc |-> gc1]
+             ELSE LET own == now + Min(Max(cfg.childTTL, Floor), CapTTL)
                       \* the child's self-referral must NOT re-anchor the lease (validReferral)
                       lc2 == IF SelfRefReanchors /\ cfg.child # "long"
                              THEN [lc1 EXCEPT !.exp = now + 3600] ELSE lc1
-                      cut == IF FloorWins THEN own ELSE Min(own, lc2.exp)
-                  IN [lp |-> lp1, lc |-> lc2, an |-> [exp |-> cut, pv |-> lc2.pv, cv |-> lc2.cv],
+                      cutA == IF SelfRefReanchors /\ cfg.child # "long" THEN now + 3600 ELSE cutC
+                      cut == IF FloorWins THEN own ELSE Min(own, cutA)
+                      \* ... and where it would have ended had neither referral been limited by the ceiling
+                      rawA == Min(own, IF sameP THEN leaseC.exp
+                                       ELSE Min(now + CTTL, IF haveP THEN leaseP.exp ELSE now + PTTL))
+                  IN [lp |-> lp1, lc |-> lc2, an |-> [exp |-> cut, pv |-> lc2.pv, cv |-> lc2.cv, raw |-> rawA],
                       ng |-> neg, rep |-> <<lc2.pv, lc2.cv>>, gp |-> gp1, gc |-> gc1]
 
 DoQuery ==
@@ -114,16 +162,22 @@ Query == /\ nq < MaxQueries
          /\ UNCHANGED <<cfg, now, pver, cver, nextP, nch>>
 
 \* keep the name hot for one whole tick: a query now, then every 300 ms until the next tick
-Hot == /\ nq < MaxQueries /\ now < Horizon
+Hot == /\ RealTime /\ nq < MaxQueries /\ now < Horizon
        /\ DoQuery /\ rat' = now
        /\ nq' = nq + 1
        /\ now' = now + 1
        /\ UNCHANGED <<cfg, pver, cver, nextP, nch>>
 
-Tick == /\ now < Horizon
+Tick == /\ RealTime /\ now < Horizon
         /\ now' = now + 1
         /\ reply' = NoReply
         /\ UNCHANGED <<cfg, pver, cver, nextP, leaseP, leaseC, ans, neg, rat, nq, nch, grantP, grantC>>
+
+\* hours pass (long-lease family): nothing is in flight, the harness shifts every stored timestamp by d
+Jump(d) == /\ ~RealTime /\ now + d <= Horizon
+           /\ now' = now + d
+           /\ reply' = NoReply
+           /\ UNCHANGED <<cfg, pver, cver, nextP, leaseP, leaseC, ans, neg, rat, nq, nch, grantP, grantC>>
 
 Changed == /\ nch' = nch + 1 /\ reply' = NoReply
            /\ UNCHANGED <<cfg, now, leaseP, leaseC, ans, neg, rat, nq, grantP, grantC>>
@@ -146,13 +200,15 @@ RootRepoint == /\ nch < MaxChanges /\ pver # 0 /\ nextP <= MaxP
                /\ Changed
 
 Next == Query \/ Hot \/ Tick \/ ParentWithdraw \/ ParentRepoint \/ RootWithdraw \/ RootRepoint
+        \/ \E d \in Jumps : Jump(d)
 
 Spec == Init /\ [][Next]_vars
 
 (***************************************************************************)
 (* FollowsParent: data of a delegation version that is no longer the        *)
 (* parents' truth is served only inside the lease the parents granted       *)
-(* (min NS/DS TTL from the observation, min with the shallower cut).        *)
+(* (min NS/DS TTL from the observation, min with the shallower cut, under   *)
+(* the 12 h ceiling: grantP / grantC).                                      *)
 (***************************************************************************)
 Current(p, c) == p = pver /\ p # 0 /\ c = cver[p]
 
@@ -170,4 +226,9 @@ TypeOK == /\ now \in 0..Horizon /\ pver \in 0..MaxP /\ nq \in 0..MaxQueries /\ n
 
 \* the generator must reach the interesting region (checked as a must-fail in a coverage cfg)
 NeverStaleWindow == ~(reply # NoReply /\ reply # <<0, 0>> /\ ~Current(reply[1], reply[2]))
+\* ... and, in the long-lease family, the instant at which ONLY the ceiling has ended a stale answer (its own TTL and
+\* both referral TTLs would still run) while a client query is still to come: the query that tells the intended
+\* resolver from the CeilOnCut mutant
+CeilTension == /\ ans.pv # 0 /\ ~Current(ans.pv, ans.cv) /\ ans.exp <= now /\ now < ans.raw
+NeverCeilTension == ~(CeilTension /\ nq < MaxQueries)
 =============================================================================
